@@ -26,6 +26,7 @@ Clause → theorem (details in notes/C01.md):
 import Pandora.Proofs.C01
 import Pandora.Proofs.C01Chain
 import Pandora.Proofs.C01Float
+import Pandora.Bridge.C01Conc
 import Mathlib.Analysis.SpecialFunctions.Integrals.Basic
 
 namespace Pandora.Props.C01
@@ -530,6 +531,121 @@ theorem C01_float_partial (fl : ℝ → ℝ) (hfl : Rounding (1 / 2 ^ 53) fl) (f
   rw [hc]
   exact ⟨by linarith, by linarith⟩
 
+/-! ### several consumers: the start protocol of a leaf under every interleaving
+
+`C01_leaf_run` reads one call of `Next` as one step.  The theorems below justify that reading for any number of
+concurrent callers: in the small-step system of `Model/C01Conc.lean` (one step = one access to the shared state; the
+access lists `nextProg` / `startProg` are REGENERATED from do_at.go + start_sync.go) every finished call based its answer
+on the same start instant `v` and on an index nobody else got, and its answer is the answer of call number `idx` of the
+sequential run of `C01_leaf_run` from a leaf started at `v`. -/
+
+/-- `s` is a state of the small-step system in which nobody panicked, the finished calls hold pairwise different
+indices below the counter, all of them read the start `v`, and each answered what the REGENERATED sequential
+`doAtSchedule.Next` answers as call number `idx` of a leaf started at `v` (`C01_leaf_run`). -/
+def ConcOK (D n : ℤ) (f : ℤ → ℤ) (v : ℤ) (s : Model.C01Conc.St) : Prop :=
+  s.panics = [] ∧ (s.log.map (·.idx)).Nodup ∧
+  ∀ a ∈ s.log, 0 ≤ a.idx ∧ a.idx < s.ctr ∧ a.start = some v ∧
+    ∀ now : ℤ, ∃ r s', doAtSchedule_Next now (startedSt D n f v a.idx.toNat) = Except.ok (r, s') ∧
+      Model.C01Conc.ansOf D n f a = some r ∧
+      r = if n ≤ a.idx then (v + D, false) else (v + f a.idx, true)
+
+theorem concOK_of_inv (D n : ℤ) (f : ℤ → ℤ) (g : Bool) (body : List Model.C01Conc.Stmt) (V : ℤ → Prop)
+    (s : Model.C01Conc.St) (h : Proofs.C01Conc.Inv g body V s) :
+    ∃ v, (s.log = [] ∨ (V v ∧ s.start = some v)) ∧ ConcOK D n f v s := by
+  have hv : ∃ v, s.log = [] ∨ (V v ∧ s.start = some v) := by
+    by_cases hop : Proofs.C01Conc.Open g s
+    · obtain ⟨v, hV, hs⟩ := h.opened hop
+      exact ⟨v, Or.inr ⟨hV, hs⟩⟩
+    · exact ⟨0, Or.inl (h.closed hop).1⟩
+  obtain ⟨v, hs⟩ := hv
+  refine ⟨v, hs, h.nopanic, h.log_nodup, ?_⟩
+  intro a ha
+  have hsv : s.start = some v := by
+    rcases hs with h0 | h1
+    · rw [h0] at ha; simp at ha
+    · exact h1.2
+  obtain ⟨h0, h1⟩ := h.log_lt a ha
+  have hst : a.start = some v := by rw [h.logstart a ha, hsv]
+  refine ⟨h0, h1, hst, ?_⟩
+  intro now
+  have hidx : ((a.idx.toNat : ℕ) : ℤ) = a.idx := Int.toNat_of_nonneg h0
+  refine ⟨_, _, next_started D n f v now a.idx.toNat, ?_, ?_⟩
+  · simp [Model.C01Conc.ansOf, hst, hidx]
+  · simp [hidx]
+
+/-- **lazy start, several consumers**: a leaf that is never `Start()`ed and is asked by any number of callers at the
+same time, in ANY interleaving of their accesses to the shared state (`sched` = who moves next and what the clock shows
+then): nobody panics, and as soon as one call has returned there is ONE instant `v` — a clock reading taken during the
+run — such that every finished call answered `(v + f idx, true)` for its own index `idx < n` (no two calls share an
+index), or `(v + D, false)` for `idx ≥ n`: the calls are linearised by the atomic increment and each sees the profile of
+`C01_leaf_run` started at `v`; no call bases its answer on an unset start. -/
+theorem C01_lazy_start_concurrent (D n : ℤ) (f : ℤ → ℤ) (sched : List (ℕ × ℤ)) :
+    ∃ v, ((Model.C01Conc.run 0 (Model.C01Conc.initLazy Gen.SchedConc.nextProg) sched).log = [] ∨
+            v ∈ sched.map Prod.snd) ∧
+      ConcOK D n f v (Model.C01Conc.run 0 (Model.C01Conc.initLazy Gen.SchedConc.nextProg) sched) := by
+  obtain ⟨g, body, hp, hb⟩ := Bridge.C01Conc.nextProg_body
+  rw [hp]
+  have hinv := Proofs.C01Conc.run_inv g body (fun v => v ∈ sched.map Prod.snd) hb 0 sched
+    (Model.C01Conc.initLazy (Proofs.C01Conc.progG g body)) (fun x hx => List.mem_map_of_mem hx)
+    (Proofs.C01Conc.inv_initLazy g body _)
+  obtain ⟨v, hv, hok⟩ := concOK_of_inv D n f g body _ _ hinv
+  exact ⟨v, hv.imp id (fun h => h.1), hok⟩
+
+/-- **started leaf, several consumers**: after `Start(t0)` has returned, any number of callers in any interleaving: every
+finished call answered as call number `idx` of `C01_leaf_run` with start `t0`, indices pairwise different. -/
+theorem C01_started_concurrent (D n : ℤ) (f : ℤ → ℤ) (t0 : ℤ) (sched : List (ℕ × ℤ)) :
+    ConcOK D n f t0 (Model.C01Conc.run 0 (Model.C01Conc.initStarted t0 Gen.SchedConc.nextProg) sched) := by
+  obtain ⟨g, body, hp, hb⟩ := Bridge.C01Conc.nextProg_body
+  rw [hp]
+  -- the Once is done from the beginning: no step consults the clock or writes `start`
+  have key : ∀ (l : List (ℕ × ℤ)) (s : Model.C01Conc.St), s.once = .done → s.start = some t0 →
+      Proofs.C01Conc.Inv g body (fun _ => True) s →
+      Proofs.C01Conc.Inv g body (fun _ => True) (Model.C01Conc.run 0 s l) ∧ (Model.C01Conc.run 0 s l).start = some t0 := by
+    intro l
+    induction l with
+    | nil => intro s _ hs h; exact ⟨h, hs⟩
+    | cons x r ih =>
+      intro s ho hs h
+      obtain ⟨t, now⟩ := x
+      simp only [Model.C01Conc.run]
+      obtain ⟨ho', hs'⟩ := Proofs.C01Conc.step_done g body _ 0 s t now h ho
+      exact ih _ ho' (by rw [hs', hs]) (Proofs.C01Conc.step_inv g body _ hb 0 s t now trivial h)
+  obtain ⟨h1, h2⟩ := key sched _ rfl rfl (Proofs.C01Conc.inv_initStarted g body _ t0 trivial)
+  obtain ⟨v, hv, hok⟩ := concOK_of_inv D n f g body _ _ h1
+  rcases hv with hnil | ⟨_, hsv⟩
+  · -- no finished call yet: the statement about the log is empty
+    refine ⟨hok.1, hok.2.1, ?_⟩
+    intro a ha; rw [hnil] at ha; simp at ha
+  · rw [h2] at hsv
+    injection hsv with hsv
+    subst hsv; exact hok
+
+/-- why the Once must come FIRST: a `Next` that consults the started flag before the Once
+(`if !s.IsStarted() { s.startOnce.Do(…) }`, flag set as the first statement of the Once's body) lets a second caller skip
+the Once while the first is between `MarkStarted()` and `s.start = time.Now()`: it answers from the zero time. -/
+def flagCheckedNext : List Model.C01Conc.Stmt :=
+  [.skipIfStarted 4, .onceEnter 3, .swapStarted, .writeStartNow, .onceExit, .incI, .readStartRet]
+
+theorem C01_lazy_start_flag_check_counterexample :
+    Model.C01Conc.safeLazy flagCheckedNext = false ∧
+    -- the same check with the flag raised LAST is covered by `C01_lazy_start_concurrent`'s proof (`safeLazy` accepts it)
+    Model.C01Conc.safeLazy [.skipIfStarted 4, .onceEnter 3, .writeStartNow, .swapStarted, .onceExit, .incI, .readStartRet] = true ∧
+    ∃ sched : List (ℕ × ℤ), ∃ a ∈ (Model.C01Conc.run 0 (Model.C01Conc.initLazy flagCheckedNext) sched).log,
+      a.start = none :=
+  ⟨by decide, by decide, [(0, 10), (0, 10), (0, 10), (1, 11), (1, 11), (1, 11)], by decide⟩
+
+/-- a limit of the start protocol as it is (not used by the engine, which never calls `Start` on a schedule that is
+being drained; the composite starts its next level under its write lock): `Start` OVERLAPPING a first `Next` goes wrong —
+`Start` marks the schedule started before it stores its argument, and the `Next` that wins the Once marks it again and
+panics (or, with a flag check in front of the Once, answers from the unset start). -/
+theorem C01_start_overlapping_next_counterexample :
+    ∃ sched : List (ℕ × ℤ),
+      (Model.C01Conc.run 7 { Model.C01Conc.initLazy Gen.SchedConc.nextProg with
+          th := fun j => if j = 0 then Gen.SchedConc.startProg else Gen.SchedConc.nextProg } sched).panics ≠ [] ∨
+      ∃ a ∈ (Model.C01Conc.run 7 { Model.C01Conc.initLazy Gen.SchedConc.nextProg with
+          th := fun j => if j = 0 then Gen.SchedConc.startProg else Gen.SchedConc.nextProg } sched).log, a.start = none :=
+  ⟨[(0, 1), (1, 2), (1, 3), (1, 4), (1, 5), (1, 6), (1, 7)], by decide⟩
+
 /-! ### non-vacuity: every hypothesis above is met by concrete, non-trivial inputs -/
 
 example : ConstConfig_valid 7.5 1000000 := by unfold ConstConfig_valid; norm_num
@@ -584,5 +700,14 @@ example : LineConfig_valid 0 10 1500000000 ∧ (1500000000:ℤ) < 2 ^ 63 ∧
 example : Rounding 0 (fun x => x) ∧ Rounding (1 / 16) (fun x => x * (1 + 1 / 16)) := ⟨rounding_id, rounding_up⟩
 example : ∃ fl, Rounding (1 / 2 ^ 53) fl := ⟨fun x => x, by norm_num, by norm_num, by intro x; simp⟩
 example : (9:ℝ) * (1 / 16) * constCum 1 (secs 1000000000) ≤ 1 := by unfold constCum secs; norm_num
+
+-- two callers of a never-started leaf taking turns access by access while the clock shows 10: both calls finish, both
+-- read the start 10, they hold the indices 0 and 1
+example : ((Model.C01Conc.run 0 (Model.C01Conc.initLazy Gen.SchedConc.nextProg)
+      (List.replicate 12 [((0 : ℕ), (10 : ℤ)), (1, 10)]).flatten).log.map fun a => (a.start, a.idx)) ∈
+        [[(some 10, (0 : ℤ)), (some 10, 1)], [(some 10, 1), (some 10, 0)]] := by decide
+example : ((Model.C01Conc.run 0 (Model.C01Conc.initStarted 5 Gen.SchedConc.nextProg)
+      (List.replicate 12 [((3 : ℕ), (1 : ℤ)), (4, 1)]).flatten).log.map fun a => (a.start, a.idx)) ∈
+        [[(some 5, (0 : ℤ)), (some 5, 1)], [(some 5, 1), (some 5, 0)]] := by decide
 
 end Pandora.Props.C01
